@@ -19,8 +19,11 @@ for k in ks:
         shutil.copy(os.path.join(src, f), os.path.join(dst, f))
     meta = json.load(open(os.path.join(src, "meta.json")))
     meta["property"] = prop
+    import subprocess
+    rev = subprocess.run(["git", "-C", f"/tmp/seed/{prop}", "rev-parse", "--short", "HEAD"], capture_output=True, text=True).stdout.strip()
+    meta["base_commit"] = rev
     meta["confirmed_by_me"] = {
-        "worktree": f"/tmp/seed/{prop} (detached worktree of /repo at the pinned snapshot 510b0e0, removed afterwards)",
+        "worktree": f"/tmp/seed/{prop} (detached worktree of /repo at {rev}, removed afterwards)",
         "ran": ["demo.py on the clean tree -> exit 0", "git apply patch.diff", "demo.py -> exit %d" % v["demo_patched_rc"],
                 "full suite: /venv/bin/python -m pytest -q -p no:cacheprovider --timeout=900 -n 4 -> " + v["tests_summary"],
                 "git checkout -- ."],
